@@ -500,11 +500,33 @@ Definition own_failure (p : prog) (c : cfg) (a : aid) (tr : list event) : option
   | _ => None
   end.
 
-(* does any command outside a's subtree fail (then a's context may have been cancelled
-   while its failing command was winding up, and EXIT_CODE may legitimately be unset) *)
+(* size of the fully expanded call tree below task t (every reference counted), saturating:
+   fuel exhausted (a cyclic program) counts as "huge" *)
+Fixpoint tree_size (fuel : nat) (p : prog) (huge : nat) (t : nat) : nat :=
+  match fuel with
+  | O => huge
+  | S f =>
+      let tk := get_task p t in
+      S (fold_left (fun acc d => acc + tree_size f p huge (c_task d)) (t_deps tk) 0 +
+         fold_left (fun acc cm => match cm with
+                                  | CallC cl | DeferCall cl => acc + tree_size f p huge (c_task cl)
+                                  | _ => acc end) (t_cmds tk) 0)
+  end.
+
+(* can the call counter (MaximumTaskCall) be reached at all: only if the expanded call tree has
+   that many task references (always "yes" for cyclic programs) *)
+Definition callcount_possible (p : prog) (c : cfg) : bool :=
+  Nat.leb (cf_maxcall c)
+          (fold_left (fun acc r => acc + tree_size (S (length p)) p (cf_maxcall c) (c_task r)) (cf_roots c) 0).
+
+(* may a's context have been cancelled while its failing command was winding up (then the command
+   ends with "context canceled" instead of its exit status and EXIT_CODE is legitimately unset):
+   some other activation has a failing command, or some task of the program can fail through a
+   guard (required variable, precondition, prompt, internal), or the call counter can trip *)
 Definition foreign_failure (p : prog) (c : cfg) (a : aid) (tr : list event) : bool :=
+  (negb (no_guard_errors p c) || callcount_possible p c) ||
   existsb (fun e => match e with
-                    | EvProbeEnd b i => failing_cmd p c b i && negb (prefix_of_aid a b)
+                    | EvProbeEnd b i => failing_cmd p c b i && negb (aid_eqb a b)
                     | _ => false end) tr.
 
 (* EXIT_CODE seen by a's deferred commands *)
